@@ -31,6 +31,7 @@ import Proofs.FitInline
 import Proofs.FitInv
 import Proofs.FitInStep
 import Proofs.FitCoherent
+import Proofs.FitValid
 import Proofs.JoinSuccess
 import Proofs.Placement
 import Props.C01
@@ -1243,6 +1244,31 @@ validity (fill prefix + children accepted; needs the request slice's `openValid`
 unplaced slice), that mark filtering (`allowedMarks`) keeps mark sets canonical, and closed-node validity
 from `Coh` at the moment `close_frontier_node` closes a node the Fitter opened (`fillBeforeTypes_sound` from
 the coherent state gives acceptance). -/
+
+/-- **`delete_emits_valid_payload`** — the payload of every step `replace_step` emits for a deletion on a
+    valid document is valid in the sense of C01 (`openValid`, Proofs/ReplaceValid.lean): every node off the
+    two open spines is fully valid, the spine nodes carry canonical marks.  What the slice contains:
+    the chain of the document's nodes `Fitter.__init__` builds (their marks are canonical because the
+    document is valid), the fillers `close_frontier_node` / `find_close_level` / the re-opening loop add
+    (`fill_before` answers, built by `create_and_fill`: valid, `createAndFillO_valid`), and the
+    re-opened nodes themselves, which stay open.  Guards: `detB`, `leafOkB` (leaf types accept the empty
+    content), document valid with creatable element types.  With `delete_emits_wf` the step satisfies both
+    payload hypotheses of C01's `apply_valid` / C04's family guard. -/
+theorem delete_emits_valid_payload (S : Schema) (hdet : detB S = true) (hleaf : PM.FromDom.leafOkB S = true)
+    (doc : Node) (f t : Nat) (hv : C01.Valid S doc) (hattrs : S.nodeAttrsOK doc = true) (st : Step)
+    (h : replaceStep S doc f t Slice.empty = .ok (some st)) :
+    ∃ sl', st.sliceOf = some sl' ∧ openValid S sl'.openStart sl'.openEnd sl'.content = true :=
+  replaceStep_empty_valid S (detS_of_detB S hdet) (PM.FromDom.leafOk_of_B S hleaf) doc f t hv hattrs st h
+
+/-- … and so is the payload of the step `Transform.delete_range` records -/
+theorem deleteRange_emits_valid_payload (S : Schema) (hdet : detB S = true) (hleaf : PM.FromDom.leafOkB S = true)
+    (doc : Node) (f t : Nat) (hv : C01.Valid S doc) (hattrs : S.nodeAttrsOK doc = true) (st : Step)
+    (h : deleteRangeStep S doc f t = .ok (some st)) :
+    ∃ sl', st.sliceOf = some sl' ∧ openValid S sl'.openStart sl'.openEnd sl'.content = true := by
+  unfold deleteRangeStep at h
+  split at h
+  · simp [throw, throwThe, MonadExceptOf.throw] at h
+  · exact delete_emits_valid_payload S hdet hleaf doc _ _ hv hattrs st h
 
 /-- **`coherent_invariant`** — the key invariant `FitState.coherentB` (with the ghost level) is an invariant
     of the loop of `fit` (Proofs/FitCoherent.lean, `Coh` = the proposition behind the Boolean):
